@@ -890,6 +890,34 @@ func (f *fnTrans) ret(ins *ssa.Return) {
 		f.factOb(f.here(), t)
 	}
 	f.constructedAtReturn(ins, ord)
+	// a function that assigns ghost state owes the declared history constraints over it
+	if len(f.c.GhostSets) > 0 {
+		for k, hs := range f.w.Spec.Histories {
+			touched := false
+			for _, h := range f.w.historyHeaps(hs[0]) {
+				for _, g := range f.c.GhostSets {
+					if strings.HasPrefix(strings.TrimSpace(g[0]), strings.TrimPrefix(h, "X$_$")+"(") {
+						touched = true
+					}
+				}
+			}
+			if !touched {
+				continue
+			}
+			ex, err := ParseSpecExpr(hs[0])
+			if err != nil {
+				continue
+			}
+			henv := &Env{w: f.w, names: map[string]TV{}, st: f.cur, old: f.entry, lets: map[string]SExpr{}}
+			t, err := henv.EvalBool(ex)
+			if err != nil {
+				f.unsupported("%s: history: %v", hs[2], err)
+				continue
+			}
+			o := f.oblige("history", "declared history constraint holds between entry and return: "+hs[0], ins.Pos(), strings.Split(hs[1], ","), f.here(), t)
+			o.Name = fmt.Sprintf("%s/history#%d@ret%d", f.name, k, ord)
+		}
+	}
 	if f.c.HasMod {
 		f.frameObligations(ins, ord)
 	} else if len(f.c.Frames) > 0 {
